@@ -580,6 +580,29 @@ def onPacket (s : State) (sp : Space) : List Frame → Except ErrorCode State
     | .error e => .error e
     | .ok s' => onPacket s' sp fs
 
+/-- the local application opens stream `sid` (`poll_open_local_stream`) -/
+def localOpen (s : State) (sid : Nat) : State :=
+  (s.setStream sid (s.newStream sid)).setNext (sidServer sid) (sidUni sid) (max (s.next (sidServer sid) (sidUni sid)) (sidIndex sid + 1))
+
+/-- the local application reads `n` bytes from stream `sid` -/
+def appRead (s : State) (sid n : Nat) : State :=
+  match s.lookup sid with
+  | none => s
+  | some st =>
+    let p := st.recv.read s.conn n
+    { s with conn := p.2 }.setStream sid { st with recv := p.1 }
+
+/-- the local application asks for STOP_SENDING on stream `sid` -/
+def appStop (s : State) (sid : Nat) : State :=
+  match s.lookup sid with
+  | none => s
+  | some st => s.setStream sid { st with recv := st.recv.stop }
+
+/-- a MAX_STREAMS frame with value `v` was sent for the given type: the advertised limit is at least `v` -/
+def advertiseStreams (s : State) (uni : Bool) (v : Nat) : State :=
+  if uni then { s with remoteUni := { s.remoteUni with latest := max s.remoteUni.latest v } }
+  else { s with remoteBidi := { s.remoteBidi with latest := max s.remoteBidi.latest v } }
+
 end State
 end Quic.Stream.RecvFlow
 
